@@ -11,7 +11,7 @@ from vt.props import c11, c12
 RULE = ("The C++ extension is compiled from the working tree's cpp/ sources (cache keyed by their hash) and loaded next "
         "to the Python implementation in the same process. Cases come from C12's generator (SPD / Laplacian / diagonally "
         "dominant systems x preconditioner None/'c'/'r' x max_full x x0 x eps x seed) for amen_solve and from C11's "
-        "generator (orders 1-6, both spectra, complex128 included, initial guess) for fast_matvec. Oracle per case, for "
+        "generator (orders 1-6, both spectra, complex128 / float32 / complex64 included, initial guess) for fast_matvec. Oracle per case, for "
         "BOTH backends: the C12 residual bound (5 eps ||b||) resp. the C11 product bound (3 eps ||ref||); mutual agreement "
         "(||A(x_cpp-x_py)|| <= 10 eps ||b||, ||y_cpp-y_py|| <= 6 eps ||ref||); whenever Python returns, C++ must return "
         "(exception, abort or signal = violation: every case is journaled before it runs and a dead shard is turned into a "
